@@ -1563,7 +1563,7 @@ where
 }
 
 pub fn drive_fuzz<C: Impl>(log: &mut crate::record::Log, seed: u64, iters: usize, tables: &Tables, group: &str) {
-    let conc = Conc { atom_len: 5, seed };
+    let conc = Conc { atom_len: 5, seed, alphabet: 0 };
     let lib = Lib { conc: &conc, tables };
     let mut rng = rand_chacha::ChaCha8Rng::seed_from_u64(seed ^ 0xf022);
     let mut counts = BTreeMap::new();
